@@ -69,6 +69,11 @@ def make_cert(subject_cn, subject_pub, issuer_cn, issuer_key, window="valid", se
         nb, na = now - 400 * DAY, now - 3 * DAY / 24
     elif window == "valid_soon":
         nb, na = now + 3 * DAY / 24, now + 400 * DAY
+    elif window == "forever":
+        # no well-defined expiration (RFC 5280 4.1.2.5: 99991231235959Z), valid since the
+        # earliest date the encoding has
+        nb = datetime.datetime(1950, 1, 1, tzinfo=datetime.timezone.utc)
+        na = datetime.datetime(9999, 12, 31, 23, 59, 59, tzinfo=datetime.timezone.utc)
     else:
         raise ValueError(window)
     b = (x509.CertificateBuilder().subject_name(name(subject_cn)).issuer_name(name(issuer_cn))
@@ -158,7 +163,11 @@ def build(rng, depth=None, custom_data=None, auth_len=None, windows=None, leaf_c
     the root of trust and the attestation key (1..3)."""
     m = Material()
     depth = depth or rng.choice([1, 2, 2, 3])
-    windows = windows or ["valid"] * depth
+    if windows is None:
+        # (one chain in six holds a certificate that never expires)
+        windows = ["valid"] * depth
+        if rng.random() < 1 / 6:
+            windows[rng.randrange(depth)] = "forever"
     m.root_key = new_key(rng)
     m.root_cert = make_cert("root", m.root_key.public_key(), "root", m.root_key, serial=1)
     m.cert_keys = []
